@@ -152,10 +152,10 @@ let () =
           List.map (fun s -> parse_input (List.filter (fun x -> x <> "")
                       (String.split_on_char ' ' (String.map (fun c -> if c = '_' then ' ' else c) s))))
             (String.split_on_char '/' ins_s) in
+        let k = int_of_string k in
         let dur_before = !durable in
         let (d, tr) = lifetime e (ni h) !durable (ni calls) ins in
         let effs = flat tr in
-        let k = int_of_string k in
         (* print the steps; with a crash, only what happened before it (the step in which it died is cut) *)
         let budget = ref (if k < 0 then max_int else k) in
         let shown = ref [] in
@@ -177,8 +177,8 @@ let () =
           end else "-" in
         (* hypotheses of the theorems, evaluated on this life: plain run (only for a life on an empty log) and
            the calling discipline *)
-        let plain = if dur_before = [] && int_of_string calls = 0 then b01 (good_run e (ni h) ins) else "-" in
-        let disc = b01 (life_disc e (ni h) dur_before (ni calls) ins) in
+        let plain = if k < 0 && dur_before = [] && int_of_string calls = 0 then b01 (good_run e (ni h) ins) else "-" in
+        let disc = if k < 0 then b01 (life_disc e (ni h) dur_before (ni calls) ins) else "-" in
         print_endline ("= " ^ sn d.d_sm.s_h ^ " " ^ b01 d.d_sm.s_started ^ " " ^ sn d.d_calls ^ " " ^
                        string_of_int (List.length effs) ^ " " ^ resume ^ " " ^ plain ^ " " ^ disc);
         print_endline "end"; flush stdout
